@@ -20,7 +20,7 @@ from ref import adu, pdu
 from harness import repo  # noqa: F401
 from harness import bind
 
-from pymodbus.client.asynchronous.twisted import ModbusClientProtocol, ModbusSerClientProtocol
+from pymodbus.client.asynchronous.twisted import ModbusClientProtocol, ModbusSerClientProtocol, ModbusTcpClientProtocol
 from pymodbus.exceptions import ConnectionException
 from pymodbus.factory import ClientDecoder
 from pymodbus.transaction import ModbusSocketFramer, ModbusRtuFramer
@@ -54,8 +54,27 @@ class World(object):
 
     def __init__(self, variant, tid0, units):
         self.variant, self.units = variant, units
+        # another connection of the same application, made first and left in the middle of a reply: its receive
+        # state is its own
+        if variant == 'tcp-default':
+            self.neighbour = ModbusTcpClientProtocol()
+        elif variant == 'tcp':
+            self.neighbour = ModbusClientProtocol()
+        else:
+            self.neighbour = ModbusSerClientProtocol()
+        self.escaped = []
+        try:
+            self.neighbour.makeConnection(Transport())
+            self.neighbour.transaction.tid = 0x3000
+            self.neighbour.read_holding_registers(0x20, 1, unit=units[0])
+            self.neighbour.dataReceived(adu.build('tcp' if variant != 'rtu' else 'rtu', units[0],
+                                                  pdu.encode(dict(kind='rsp', fc=3, registers=[0xBEEF])), tid=0x3001)[:5])
+        except Exception as e:   # noqa
+            self.escaped.append((('init',), e))
         if variant == 'tcp':
             self.p = ModbusClientProtocol(framer=ModbusSocketFramer(ClientDecoder()))
+        elif variant == 'tcp-default':
+            self.p = ModbusTcpClientProtocol()          # the class the Twisted TCP factory path instantiates, default framer
         else:
             self.p = ModbusSerClientProtocol(framer=ModbusRtuFramer(ClientDecoder()))
         self.tr = Transport()
@@ -63,7 +82,6 @@ class World(object):
         self.p.transaction.tid = tid0
         self.reqs = []            # per issued request: dict(unit, addr, wire_tid, events=[...])
         self.delivered = set()
-        self.escaped = []
         self.connected = True
         self.closed_locally = False
         self.partial = None
@@ -71,7 +89,7 @@ class World(object):
         self.last_tail = None
 
     def framing(self):
-        return 'tcp' if self.variant == 'tcp' else 'rtu'
+        return 'tcp' if self.variant != 'rtu' else 'rtu'
 
     def apply(self, ev):
         try:
@@ -88,11 +106,18 @@ class World(object):
             self.reqs.append(rec)
             n0 = len(self.tr.writes)
             d = self.p.read_holding_registers(rec['addr'], 1, unit=unit)
-            d.addCallbacks(lambda r, rec=rec: rec['events'].append(('ok', getattr(r, 'transaction_id', None), tuple(getattr(r, 'registers', ())))),
-                           lambda f, rec=rec: rec['events'].append(('err', f.type.__name__)))
+            retry = len(ev) > 1 and ev[1] == 'retry'
+            rec['retry'] = retry
             if len(self.tr.writes) > n0:
                 p = adu.parse_one(self.framing(), self.tr.writes[-1])
-                rec['wire_tid'] = p['tid'] if self.variant == 'tcp' else None
+                rec['wire_tid'] = p['tid'] if self.variant != 'rtu' else None
+
+            def failed(f, rec=rec, retry=retry):
+                rec['events'].append(('err', f.type.__name__))
+                if retry:
+                    self._apply(('req',))       # the usual retry idiom: issue the request again from the errback
+            d.addCallbacks(lambda r, rec=rec: rec['events'].append(('ok', getattr(r, 'transaction_id', None), tuple(getattr(r, 'registers', ())))),
+                           failed)
         elif kind in ('rep', 'dup'):
             self.p.dataReceived(self.reply(ev[1]))
             self.delivered.add(ev[1])
@@ -138,7 +163,7 @@ class World(object):
         tm = self.p.transaction
         pend = tuple(sorted(tm.transactions)) if isinstance(tm.transactions, dict) else len(tm.transactions)
         return (self.connected, self.closed_locally, self.partial is not None, self.partial_used, self.p._connected, tm.tid, pend,
-                tuple((r['wire_tid'], tuple(r['events']), r['after_loss'], i in self.delivered) for i, r in enumerate(self.reqs)),
+                tuple((r['wire_tid'], tuple(r['events']), r['after_loss'], i in self.delivered, r.get('retry', False)) for i, r in enumerate(self.reqs)),
                 bytes(self.p.framer._buffer), len(self.escaped))
 
 
@@ -147,12 +172,14 @@ def menu(w, max_out, max_req):
     out = w.outstanding()
     if len(w.reqs) < max_req and (len(out) < max_out or not w.connected):
         ev.append(('req',))
+        if w.connected and not any(r.get('retry') for r in w.reqs):
+            ev.append(('req', 'retry'))
     if w.connected and w.partial is not None:
         ev.append(('tail',))
         ev.append(('lose',))
         return ev
     if w.connected:
-        if w.variant == 'tcp':
+        if w.variant != 'rtu':
             for i in out[:1]:
                 ev.append(('rh', i))
             if not w.partial_used:
@@ -183,8 +210,11 @@ def check(acc, w, hist, cfgname, units_class):
 
     def bad(what, msg):
         acc.violation('C16/%s/%s/%s/%s' % (w.variant, what, last, units_class), wit, msg, cfgname)
+    for ev, e in w.escaped[:1]:
+        if ev == ('init',):
+            bad('escape:' + type(e).__name__, 'the first five bytes of a reply on ANOTHER, fresh connection raised %r' % (e,))
     for ev, e in w.escaped[-1:]:
-        if ev == hist[-1]:
+        if hist and ev == hist[-1]:
             bad('escape:' + type(e).__name__, 'event %r raised %r' % (ev, e))
     tids = [r['wire_tid'] for i, r in enumerate(w.reqs) if i in w.outstanding() and r['wire_tid'] is not None]
     if len(tids) != len(set(tids)):
@@ -194,7 +224,7 @@ def check(acc, w, hist, cfgname, units_class):
         if len(r['events']) > 1:
             bad('double-fire', 'the deferred of request %d fired %d times: %r' % (i, len(r['events']), r['events']))
         for e in oks:
-            if e[2] != (0x1000 + i,) or (w.variant == 'tcp' and e[1] != r['wire_tid']):
+            if e[2] != (0x1000 + i,) or (w.variant != 'rtu' and e[1] != r['wire_tid']):
                 bad('wrong-reply', 'request %d (id %r) was completed with reply id %r registers %r' % (i, r['wire_tid'], e[1], e[2]))
         if oks and i not in w.delivered:
             bad('wrong-reply', 'request %d completed although its reply was never delivered' % i)
@@ -250,6 +280,7 @@ def run(tier, seed):
         shards.append(('tcp', tid0, (1,), max_out, depth))
         shards.append(('tcp', tid0, (1, 2), max_out, depth))
         shards.append(('rtu', tid0, (1,), max_out, depth))
+    shards.append(('tcp-default', 0, (1,), max_out, depth))
     acc = par.run_shards(shard, shards)
     he = None if acc.n.get('states', 0) > 200 else 'vacuous: too few states'
     return dict(acc=acc, level=LEVEL, harness_error=he,
